@@ -139,7 +139,11 @@ def run_case(case):
         # (a) the step equals the ML M-step definition applied to the previous model
         st = og.stats(X, *traj[k - 1])
         w2, mu2, var2, info = og.ml_mstep(st, *traj[k - 1], sw, EPS, var_floor)
-        active = info["var_floor_active"] or info["count_floor_active"] or bool(np.any(np.isclose(var2, var_floor, rtol=1e-6, atol=0)))
+        # a component that has collapsed onto a single point has a variance at the rounding-noise level of the raw
+        # moments (eps * x^2): its log-variance, and with it the likelihood, is noise - same exclusion as an active floor
+        noise = 1e3 * EPS * scale * scale
+        active = (info["var_floor_active"] or info["count_floor_active"] or bool(np.any(np.isclose(var2, var_floor, rtol=1e-6, atol=0)))
+                  or bool(np.any(var2 < noise)) or bool(np.any(P[2] < noise)) or bool(np.any(traj[k - 1][2] < noise)))
         floor_step.append(active)
         if k <= kmax:
             c.close(P[0], w2, "mstep_weights", f"weights after iteration {k}", tags)
@@ -199,6 +203,31 @@ def run_case(case):
             for i, nm in enumerate(("weights", "means", "variances")):
                 c.close(P[i], traj[stop][i], "stop", f"cap={cap} thr={thr}: {nm} must be those after {stop} iterations", tags,
                         rtol=1e-12, scale=scale * scale)
+            # history: fit() again on the same object continues from the current model with a fresh iteration count
+            # and a fresh convergence test (nothing is carried over from the previous call)
+            if cap is not None and thr in (0.1, 1e-3, 1.0) and not c.viol:
+                stop2, near2 = cap, False
+                for k in range(2, cap + 1):
+                    if stop + k - 1 > kfull:
+                        near2 = True
+                        break
+                    a0, a1 = L[stop + k - 2], L[stop + k - 1]
+                    if a0 == 0:
+                        near2 = True
+                        break
+                    rel = abs((a0 - a1) / a0)
+                    if abs(rel - thr) <= 1e-9 * max(1.0, thr) + 1e-13:
+                        near2 = True
+                    if rel <= thr:
+                        stop2 = k
+                        break
+                if not near2 and stop + stop2 <= kfull and not any(floor_step[1 : stop + stop2 + 1]):
+                    fit(cap, thr, machine=m)
+                    P2 = _params(m)
+                    for i, nm in enumerate(("weights", "means", "variances")):
+                        c.close(P2[i], traj[stop + stop2][i], "refit", f"cap={cap} thr={thr}: {nm} after a second fit of the same object must be those after {stop}+{stop2} iterations",
+                                tags, rtol=1e-9, scale=scale * scale)
+                    c.count("refits")
     c.traces = c.transitions
     nontrivial = moved and not any(floor_step[1 : kmax + 1])
     sig = "%s|%d|%s|%s|%s" % (case["data"], case["init"], tags["sw"], case["floor"], case["kind"])
